@@ -524,6 +524,12 @@ def _check_reason(f, sid, s, d, causes):
     # every other cause binds the reason
     if f.has_sleep:
         return out
+    cl = s.get('client')
+    if cl is not None and cl.spec.get('poll', {}).get('extra'):
+        # a client with a second long-poll open is not conformant: that poll
+        # competes with the WebSocket writer for the queue, end marker
+        # included, and the server can learn of an end late (cf. K11)
+        return out
     imm = [c for c in occurred if c['immediate'] and not c.get('optional')]
     if imm:
         first = min(imm, key=lambda c: (c['t'], c['seq']))
